@@ -146,7 +146,6 @@ func (c *C15Pred) Run() string {
 	return ""
 }
 
-
 // runValues: MaskedValues(v, rtol[, atol]) marks the elements within atol + rtol*|v| of v (without an
 // absolute tolerance: the elements equal to v; the generated elements differ from v by 0 or by at least 1/2,
 // and |v| is small, so every reading of the default tolerance agrees). Floats only; other types are refused.
@@ -466,7 +465,6 @@ func (c *C15Inspect) Run() string {
 	return msg
 }
 
-
 // perAxis checks MaskedCount/NonMaskedCount/MaskedAny/MaskedAll with an axis argument against the mask.
 func (c *C15Inspect) perAxis(t *tensor.Dense, desc string) string {
 	n := len(c.Mask)
@@ -657,6 +655,25 @@ func (c *C15Carry) Run() string {
 			parentOff = inner
 		case "Clone":
 			res = t.Clone().(*tensor.Dense)
+		case "T+Materialize", "T+Clone", "T+Copy":
+			// a copy of a lazily transposed masked tensor: elements and mask bits land at the transposed coordinates
+			if lerr = t.T(cloneIntsNN(c.Perm)...); lerr != nil {
+				return
+			}
+			wantE, wantM = arr.Permute(c.Perm), mk.Permute(c.Perm)
+			switch c.Op {
+			case "T+Materialize":
+				res = t.Materialize().(*tensor.Dense)
+			case "T+Clone":
+				res = t.Clone().(*tensor.Dense)
+			default:
+				dst := tensor.New(tensor.Of(d.T), tensor.WithShape(wantE.Shape...))
+				dst.ResetMask(false)
+				if lerr = tensor.Copy(dst, t); lerr != nil {
+					return
+				}
+				res = dst
+			}
 		case "Materialize", "Slice":
 			sl := make([]tensor.Slice, len(c.Specs))
 			sels := make([][]int, len(c.Shape))
@@ -747,7 +764,6 @@ func (c *C15Carry) Run() string {
 	return ""
 }
 
-
 // ---------------------------------------------------------------- single mask bits
 
 // C15Set: SetMaskAt(v, coord...) sets the mask bit of exactly that element - through a view or a lazy
@@ -757,7 +773,7 @@ type C15Set struct {
 	Shape []int  `json:"shape"`
 	Mask  []bool `json:"mask"`
 	L     Layout `json:"layout"`
-	K     int    `json:"k"`   // logical position of the element whose bit is set
+	K     int    `json:"k"` // logical position of the element whose bit is set
 	V     bool   `json:"v"`
 	Bad   int    `json:"bad"` // 0: valid coordinate; 1: one component == dimension; 2: negative; 3: one component too few; 4: one too many
 }
@@ -951,7 +967,7 @@ func TestC15(t *testing.T) {
 		})
 	}
 	// masks carried through transposition, slicing and copying
-	for _, op := range []string{"T", "Transpose", "SafeT", "Slice", "Materialize", "Clone", "ViewTranspose"} {
+	for _, op := range []string{"T", "Transpose", "SafeT", "Slice", "Materialize", "Clone", "ViewTranspose", "T+Materialize", "T+Clone", "T+Copy"} {
 		op := op
 		cell(t, "C15", "C15.carry", "carry/"+op, nCases(100, 3000), func(rt *rapid.T) Case {
 			shape := genShapeMin2(rt, 1, 3, 4, "s")
@@ -960,7 +976,7 @@ func TestC15(t *testing.T) {
 				c.Mask[i] = rapid.Bool().Draw(rt, "m")
 			}
 			switch op {
-			case "T", "Transpose", "SafeT", "ViewTranspose":
+			case "T", "Transpose", "SafeT", "ViewTranspose", "T+Materialize", "T+Clone", "T+Copy":
 				c.Perm = genPerm(rt, len(shape), "perm")
 			case "Slice", "Materialize":
 				for i, dim := range shape {
@@ -984,9 +1000,45 @@ func TestC15(t *testing.T) {
 		for _, d := range []DT{dtInt32, dtF64, dtUint8, dtF32, dtInt8, dtUint16, dtInt64} {
 			op, d := op, d
 			cell(t, "C15", "EW", "masked-op/"+op+"/"+d.Name, nCases(30, 600), func(rt *rapid.T) Case {
+				return genMaskedOp(rt, op, d)
+			})
+		}
+	}
+	// ... and every other elementwise operation, the element type drawn per case (each has a masked kernel
+	// per type and variant)
+	for _, op := range []string{"Gt", "Gte", "Lte", "ElNe", "Pow", "MinBetween", "MaxBetween", "Abs", "Sign", "Cube", "Inv", "Sqrt", "Exp", "Tanh", "Add", "Sub", "Mul", "Div", "Lt", "ElEq", "Neg", "Square"} {
+		op := op
+		cell(t, "C15", "EW", "masked-op/"+op+"/any-type", nCases(40, 900), func(rt *rapid.T) Case {
+			fam := "arith"
+			switch op {
+			case "Gt", "Gte", "Lte", "ElNe", "Lt", "ElEq":
+				fam = "cmp"
+			case "Abs", "Sign", "Cube", "Inv", "Sqrt", "Exp", "Tanh", "Neg", "Square":
+				fam = "unary"
+			}
+			var ok []DT
+			for _, d := range numDTs {
+				if opSupports(fam, op, d) && !(fam == "cmp" && d.IsComplex()) {
+					ok = append(ok, d)
+				}
+			}
+			return genMaskedOp(rt, op, rapid.SampledFrom(ok).Draw(rt, "dt"))
+		})
+	}
+}
+
+// genMaskedOp: one elementwise operation on masked operands.
+func genMaskedOp(rt *rapid.T, op string, d DT) Case {
+	{
+		{
+			{
 				var c *EWCase
 				lay := []string{"contig", "lazyT"}
 				switch op {
+				case "Gt", "Gte", "Lte", "ElNe":
+					c = genCmpCase(rt, "C15", op, d, rapid.SampledFrom([]string{"TT", "TS"}).Draw(rt, "form"), "pkg", "safe", false, lay)
+				case "Abs", "Sign", "Cube", "Inv", "Sqrt", "Exp", "Tanh":
+					c = genUnaryCase(rt, "C15", op, d, "safe", lay)
 				case "Lt", "ElEq":
 					c = genCmpCase(rt, "C15", op, d, rapid.SampledFrom([]string{"TT", "TS"}).Draw(rt, "form"), "pkg", "safe", false, lay)
 				case "Neg", "Square":
@@ -1021,8 +1073,12 @@ func TestC15(t *testing.T) {
 					rec.Class("excluded:F62")
 					avoidF62(c)
 				}
+				if inF25(c) { // (decided again now that the operand carries a mask)
+					rec.Class("excluded:F25")
+					c.A.L = Layout{Root: "rm"}
+				}
 				return c
-			})
+			}
 		}
 	}
 }
